@@ -29,7 +29,9 @@ Theorem C06_enabled : forall st, reachable st ->
      exists st', step begin_copy st (ATraverse i c) = Some (st', VUnit)) /\
   (forall i e c a, execs st i = Some e -> ex_cache e c = Some a ->
      step begin_copy st (ARead i c) = Some (st, VCtx (Some i))) /\
-  (forall i e, execs st i = Some e -> exists st', step begin_copy st (ABody i) = Some (st', VMsg i)).
+  (forall i e, execs st i = Some e -> step begin_copy st (ABody i) = Some (st, VMsg i)) /\
+  (forall i e, execs st i = Some e -> exists st', step begin_copy st (AResult i) = Some (st', VUnit)) /\
+  (forall i e, execs st i = Some e -> step begin_copy st (ASave i) = Some (st, VSaved i (ex_ret e))).
 Proof. exact enabled. Qed.
 Print Assumptions C06_enabled.
 
@@ -45,8 +47,9 @@ Print Assumptions C06_isolated_refuted.
 Example C06_three_executions :
   run begin_copy init
     [ABegin 0; ATraverse 0 0; ABegin 1; ATraverse 1 0; ARead 0 0; ABegin 2; ATraverse 0 1; ARead 0 1;
-     ATraverse 2 0; ATraverse 1 1; ARead 1 1; ABody 1; ARead 2 0; ABody 0; ASave 1; ABody 2; ASave 0; ASave 2]
+     ATraverse 2 0; ATraverse 1 1; ARead 1 1; ABody 1; ARead 2 0; ABody 0; AResult 1; ASave 1; ABody 2; AResult 0;
+     ASave 0; ASave 2]
   = Some [VUnit; VUnit; VUnit; VUnit; VCtx (Some 0); VUnit; VUnit; VCtx (Some 0);
-          VUnit; VUnit; VCtx (Some 1); VMsg 1; VCtx (Some 2); VMsg 0; VSaved 1 (Some 1); VMsg 2;
-          VSaved 0 (Some 0); VSaved 2 (Some 2)].
+          VUnit; VUnit; VCtx (Some 1); VMsg 1; VCtx (Some 2); VMsg 0; VUnit; VSaved 1 (Some 1); VMsg 2; VUnit;
+          VSaved 0 (Some 0); VSaved 2 None].
 Proof. vm_compute. reflexivity. Qed.
